@@ -65,6 +65,14 @@ def label_iteration(it, table):
         return label_iteration(it[2][0], table)
     if it == table:
         return 'keys'
+    if it[0] == 'dictcomp':
+        names = it[3].split(',')
+        inner = strip(it[4])
+        over_items = inner[0] == 'mcall' and inner[2] == 'items' and inner[1] == table
+        if over_items and len(names) == 2 and it[1] == ('var', names[1]):
+            return 'inverted'           # {address: name ...}: one entry per address
+        if over_items and len(names) == 2 and it[1] == ('var', names[0]) and not it[5]:
+            return 'keys'               # a copy of the table
     if it[0] == 'mcall' and it[2] in ('items', 'keys') and not it[3]:
         if it[1] == table:
             return it[2]
@@ -330,6 +338,8 @@ def judge_labels(wr, op, table, path):
     kind = label_iteration(src['iter'], table)
     if kind == 'other':
         return False, 'the lines are not produced from the label table handed to assemble()'
+    if kind == 'inverted':
+        return False, 'the lines are produced from a table keyed by address: labels that share an address collapse into a single line'
     if kind is None:
         return None, 'the iteration that produces the label lines is not understood: {}'.format(show(src['iter'])[:80])
     if src['filtered']:
